@@ -29,11 +29,22 @@ UNKNOWN = _Unknown()
 UNIT = ("unit",)
 
 
+def _own_nones(fields):
+    """Field table of a new value.  Options are updated in place (`insert`, `get_or_insert_with`, `take` ...), so a value never
+    holds the shared NONE object itself: each `None` field becomes an object of its own."""
+    out = dict(fields or {})
+    shared = globals().get("NONE")
+    for k, v in out.items():
+        if v is shared and shared is not None:
+            out[k] = Enum("core::option::Option", "None")
+    return out
+
+
 class Enum:
     __slots__ = ("adt", "variant", "fields")
 
     def __init__(self, adt, variant, fields=None):
-        self.adt, self.variant, self.fields = adt, variant, dict(fields or {})
+        self.adt, self.variant, self.fields = adt, variant, _own_nones(fields)
 
     def __eq__(self, o):
         return isinstance(o, Enum) and (self.adt, self.variant, self.fields) == (o.adt, o.variant, o.fields)
@@ -49,7 +60,7 @@ class Struct:
     __slots__ = ("adt", "fields")
 
     def __init__(self, adt, fields=None):
-        self.adt, self.fields = adt, dict(fields or {})
+        self.adt, self.fields = adt, _own_nones(fields)
 
     def __eq__(self, o):
         return isinstance(o, Struct) and (self.adt, self.fields) == (o.adt, o.fields)
@@ -219,6 +230,11 @@ def some(v):
 
 
 NONE = Enum(OPTION, "None")
+
+
+def none():
+    """a `None` of its own, for a field that the evaluated code may update in place"""
+    return Enum(OPTION, "None")
 
 
 def ordering(a, b):
@@ -1792,6 +1808,8 @@ class PEval:
                 old = Enum(a0.adt, a0.variant, a0.fields)
                 a0.variant, a0.fields = "None", {}
                 return old
+            if a0 is NONE and fname in ("replace", "insert", "get_or_insert", "get_or_insert_with"):
+                return self.unknown("in-place update of the shared None value (%s)" % fname)
             if fname == "replace" and len(args) == 2:
                 old = Enum(a0.adt, a0.variant, a0.fields)
                 a0.variant, a0.fields = "Some", {"0": args[1]}
